@@ -78,7 +78,8 @@ CLAIMS = {
          'canonical_run_terminates (for EVERY scenario, any number of boards), session_always_completes (from ANY reachable state, under ANY '
          'interleaving, the session can be continued and every continuation ends, after a fixed total number of steps, with all nine threads '
          'finished, all channels drained, every channel having carried exactly the specified messages), runs_are_bounded (no infinite run), '
-         'never_deadlocks (the only state where nobody can move is the completed session), end_of_session_is_last, log_is_opened_written_closed. '
+         'never_deadlocks (the only state where nobody can move is the completed session), end_of_session_is_last, log_is_opened_written_closed, '
+         'seat_thread_follows_its_queue (the seat thread modelled AS THE CODE IS WRITTEN — control flow decided only by its queue messages, own trick counter and seat-on-turn bookkeeping — performs exactly its session program), ready_messages_pass_the_server_check. '
          'Unbounded: induction over the phase list; the 74 phase shapes are checked by kernel evaluation on the payload-erased net and lifted. '
          'Tie to /repo: the UNMODIFIED threaded Server + four conforming clients run under a deterministic scheduler; per-thread operation '
          'sequences (queue/barrier/socket, with payloads) must equal the model programs, and every run must complete, under random / PCT / '
@@ -93,7 +94,7 @@ CLAIMS = {
          'came to rest wrote the same log and carried the same messages on every channel), deal_logged_is_original (id, dealer, ORIGINAL deal, team '
          'names, dda, the calls as sent), scores_are_opposite, passed_out_record_shape, record_follows_rules (for conforming decisions the recorded '
          'contract is the Laws\' contract of the auction (C03 spec), the play is the cards cut in fours with their true leaders (C04 spec), tricks = '
-         'tricks won by declarer\'s side, score = duplicate score law for declarer\'s side (C07 spec)). Unbounded boards / auctions / schedules. '
+         'tricks won by declarer\'s side, score = duplicate score law for declarer\'s side (C07 spec)), main_thread_follows_the_messages (the main thread modelled AS THE CODE IS WRITTEN — asking the seat on turn, parsing the text it receives, running its own auction and play, raising on illegal / unparseable / not-held actions, assembling the record — performs exactly the session program and writes exactly these records). Unbounded boards / auctions / schedules. '
          'Tie to /repo: the unmodified threaded Server with four scripted clients under the deterministic scheduler; every log record compared field by '
          'field with the Lean record, each scenario under >= 2 schedules with byte-identical logs.',
          'Trusted: Lean kernel (3 standard axioms); primitive semantics of Queue / socket / Barrier (as C09); session model faithfulness on sessions not '
@@ -169,7 +170,7 @@ CLAIMS = {
          'loop_continues_until_full (a rejection never stops the loop; nothing is served after the table is full), one_client_per_seat (for EVERY '
          'request sequence at most one request is seated per seat and every occupied seat belongs to exactly one seated request, under its team '
          'name), partners_share_team (every reachable table), teams_message_correct (full table => the Teams message names each side\'s team), '
-         'verdicts_are_a_prefix, order_matters. Unbounded sequences, by an invariant over the fold. Tie to /repo: request sequences (and '
+         'verdicts_are_a_prefix, order_matters, accept_loop_is_the_fold (the accept loop and _connect modelled AS THE CODE IS WRITTEN, on request TEXTS, are this fold; thread operations receive / reply / close / signal). Unbounded sequences, by an invariant over the fold. Tie to /repo: request sequences (and '
          'free-for-all arrivals) from concurrently scheduled clients against the unmodified threaded server; verdict kinds, seated replies, closed '
          'connections, final table, Teams messages of all four, first board started, session completed.',
          'Trusted: Lean kernel (3 standard axioms); the accept loop serialises admissions (it waits for each connection thread\'s verdict event '
@@ -187,7 +188,7 @@ CLAIMS = {
          'declarer), client_play_replica (after every prefix of the play every client has not raised and its replica is related to the table '
          'manager\'s game: same turn, trick number, leaders, history, counts), bundled_clients_conform (four WeakBid + RandomPlay clients, for '
          'EVERY deal and every result of random.choice, produce a complete legal auction, 52 accepted plays and texts that parse back), '
-         'bundled_client_completes_session (hence every schedule of such a session completes, by C09). Tie to /repo: lock step of the real '
+         'bundled_client_completes_session (hence every schedule of such a session completes, by C09), bundled_client_follows_the_messages (the bundled Client modelled AS THE CODE IS WRITTEN — parsing every message, own auction and observer replicas — never raises, never blocks and performs exactly the session\'s client program, for every seat). Tie to /repo: lock step of the real '
          'PlayingPhaseWithHands and four real ObservedPlayingPhase with injected illegal plays, every public field after every card; four real '
          'bundled Client objects (bundled and seeded random-legal systems) against the threaded server under the scheduler, their '
          'bidding_phase() results and final play replicas compared with the log.',
